@@ -109,7 +109,7 @@ theorem resub_spec {g : G} (ok : g.Ok) (hcv : g.cvf = fun k => some (.int k)) (t
   | k+1, c, lv, w, h, ha, hf, hsub => by
     have hk : F0 - 1 - c.serial = k := by omega
     simp only [resubP]
-    apply newObserver_spec ok h (by rw [hn]) (by rw [he, hk]) (by rw [hc])
+    apply newObserver_spec ok h ha (by rw [hn]) (by rw [he, hk]) (by rw [hc])
     intro w1 h1
     apply flaky_sub ok h1 hcv tag scripts (s := c.serial) (by simp [Ctl.newObserver]) (by simp)
     intro w2 h2
